@@ -173,7 +173,9 @@ pub fn scenario(seed: u64, opts: &Opts) -> Made {
     let mut svcs: Vec<Svc> = Vec::new();
     for i in 0..n_svcs {
         let host = if share_host { "shared.local".to_string() } else { format!("host{i}.local") };
-        let mut s = Svc::new(TY, &format!("inst{i}"), &host, [10, 0, 0, 30 + if share_host { 0 } else { i as u8 }]);
+        // (instance names in the letter case their owners chose)
+        let label = if rng.chance(1, 3) { format!("Inst{i} Office") } else { format!("inst{i}") };
+        let mut s = Svc::new(TY, &label, &host, [10, 0, 0, 30 + if share_host { 0 } else { i as u8 }]);
         s.port = 8000 + i as u16;
         s.ttl_ptr = pick_ttl(&mut rng, opts.ttls);
         s.ttl_srv = pick_ttl(&mut rng, opts.ttls);
